@@ -71,6 +71,16 @@ CHECKS["C15"] = dict(technique="TLA+ model checking (TLC) of the wait_pid pollin
           "arguments and return instant. 2.5k-20k seeded wait_procs executions are validated by TLC against WaitProcs.tla."),
     note=TB + " EINTR is absorbed by os.waitpid (PEP 475) and is not surfaced; wait status words come from real children.")
 
+CHECKS["C05"] = dict(technique="TLA+ model checking (TLC): table enumeration + explicit DFS steps with liveness; every enumerated (table, caller) replayed into the real code over simkernel", category="model_checking", ref="DESIGN.md section 3 C05",
+    text=("ProcTree.tla enumerates every process table of 3 PIDs (thorough: 4) -- ppid in listed PIDs, 0 or an unlisted PID, "
+          "start ticks in 0..2, any listed subset -- and every caller; the recursive walk is modelled as the code's "
+          "explicit stack/seen loop, one iteration per action, so TLC proves termination (liveness under WF) and a step bound "
+          "on every graph incl. self-loops and cycles, and that the walk's result equals the declarative reachability, each "
+          "node once, never the caller, never an older process. All 40k (table, caller) pairs are rendered as stat files "
+          "(with hostile process names) and children()/children(recursive)/parent()/parents() compared as PID sets/"
+          "sequences, plus recycled-caller, swept-cache and vanish-during-walk variants."),
+    note=TB + " The walk prunes at processes older than the caller (documented behaviour); parents() only on chains that reach a root.")
+
 PENDING = "check under construction in this round (see DESIGN.md section 6 work order)"
 NA = {}
 
